@@ -343,7 +343,7 @@ impl Simulation for C13Sim {
     if name == "thorough" {
       TierCfg { name: "thorough".into(), max_runs: 30_000, secs: 900 }
     } else {
-      TierCfg { name: "quick".into(), max_runs: 480, secs: 150 }
+      TierCfg { name: "quick".into(), max_runs: 640, secs: 150 }
     }
   }
   fn run(&self, seed: u64, _tier: &str, _known: &KnownFindings) -> RunReport {
